@@ -5,22 +5,26 @@
 #include "rc_util.hpp"
 
 namespace vf {
-inline rc::Gen<SSong> genSong() {
+inline rc::Gen<SSong> genSong(bool allow_shared = false) {
     using namespace rc;
-    return gen::mapcat(gen::tuple(gen::weightedElement<int>({{1, 0}, {3, 1}}), rng<int>(1, 8), gen::weightedOneOf<int>({{4, gen::element(1, 24, 96, 192, 480, 960, 32767)}, {1, rng<int>(1, 32767)}})), [](std::tuple<int, int, int> h) {
+    return gen::mapcat(gen::tuple(gen::weightedElement<int>({{1, 0}, {3, 1}}), rng<int>(1, 8), gen::weightedOneOf<int>({{4, gen::element(1, 24, 96, 192, 480, 960, 32767)}, {1, rng<int>(1, 32767)}})), [allow_shared](std::tuple<int, int, int> h) {
         int format = std::get<0>(h), nt = format == 0 ? 1 : std::get<1>(h); unsigned division = (unsigned)std::get<2>(h);
         auto evGen = gen::tuple(gen::weightedElement<int>({{40, 0}, {30, 1}, {15, 2}, {10, 3}, {4, 4}, {1, 5}}), rng<int>(0, 100000), rng<int>(0, 22), rng<int>(0, 1000), rng<int>(0, 1000), rng<int>(0, 1));
         auto trackGen = gen::container<std::vector<std::tuple<int, int, int, int, int, int>>>(evGen);
-        return gen::map(gen::tuple(gen::container<std::vector<std::vector<std::tuple<int, int, int, int, int, int>>>>((size_t)nt, trackGen), rng<int>(0, 3)), [format, division](std::tuple<std::vector<std::vector<std::tuple<int, int, int, int, int, int>>>, int> tt) {
+        return gen::map(gen::tuple(gen::container<std::vector<std::vector<std::tuple<int, int, int, int, int, int>>>>((size_t)nt, trackGen), rng<int>(0, 3), rng<int>(0, 3)), [format, division, allow_shared](std::tuple<std::vector<std::vector<std::tuple<int, int, int, int, int, int>>>, int, int> tt) {
             SSong s; s.format = format; s.division = division;
             const auto &raw = std::get<0>(tt); int eot_mode = std::get<1>(tt);
+            // shared mode (C07): every track plays on channels 0/1 with the same tiny key set; the last data byte carries 16*track + r so that events can be attributed
+            bool shared = allow_shared && raw.size() >= 2 && std::get<2>(tt) == 0; s.shared = shared ? 1 : 0;
             for(size_t k = 0; k < raw.size(); k++) {
                 STrack t; int serial = 0; size_t nt2 = raw.size();
                 for(const auto &r : raw[k]) {
                     SEv e; int dsel = std::get<0>(r), dv = std::get<1>(r), kind = std::get<2>(r), a = std::get<3>(r), b = std::get<4>(r);
                     switch(dsel) { case 0: e.delta = 0; break; case 1: e.delta = 1 + (uint32_t)dv % 127; break; case 2: e.delta = 1 + (uint32_t)dv % 40; break; case 3: e.delta = 128 + (uint32_t)dv % 20000; break; case 4: e.delta = (uint32_t)dv % 3; break; default: e.delta = 16384 + (uint32_t)dv * 19u % 2000000u; break; }
                     int ch = (int)((2 * k + (size_t)(a & 1)) % 16); if(nt2 == 1) ch = a % 16;
-                    int key = ((a / 7) % 10 < 7) ? 36 + (a / 2) % 3 : 36 + (a / 2) % 24; // mostly a tiny key set: same-key retriggers and zero-length notes at one tick are common e.running = std::get<5>(r) != 0; serial++;
+                    int key = ((a / 7) % 10 < 7) ? 36 + (a / 2) % 3 : 36 + (a / 2) % 24; // mostly a tiny key set: same-key retriggers and zero-length notes at one tick are common
+                    e.running = std::get<5>(r) != 0; serial++;
+                    if(shared) { ch = a & 1; key = 36 + (a / 2) % 3; if(kind == 8) kind = 5; }
                     std::vector<uint8_t> stamp = {(uint8_t)k, (uint8_t)((serial >> 7) & 0x7F), (uint8_t)(serial & 0x7F)};
                     switch(kind) {
                     case 0: case 1: case 2: case 3: case 4: e.status = (uint8_t)(0x90 | ch); e.data = {(uint8_t)key, (uint8_t)(1 + b % 127)}; break;
@@ -40,6 +44,11 @@ inline rc::Gen<SSong> genSong() {
                     case 20: if(k == 0) { e.status = 0xFF; e.meta = 0x59; e.data = {(uint8_t)(b % 8), (uint8_t)(b & 1)}; } else { e.status = (uint8_t)(0x90 | ch); e.data = {(uint8_t)key, 64}; } break;
                     case 21: if(k == 0) { e.status = 0xFF; e.meta = (b & 1) ? 0x54 : 0x20; e.data = (b & 1) ? std::vector<uint8_t>{1, 2, 3, 4, 5} : std::vector<uint8_t>{(uint8_t)(b % 16)}; } else { e.status = (uint8_t)(0x80 | ch); e.data = {(uint8_t)key, 0}; } break;
                     default: e.status = (uint8_t)(0x90 | ch); e.data = {(uint8_t)key, 100}; break;
+                    }
+                    if(shared && e.status >= 0x80 && e.status < 0xF0 && !e.data.empty()) {
+                        uint8_t &last = e.data.back(); bool is_cc = (e.status & 0xF0) == 0xB0;
+                        if(is_cc) e.data[0] = (b & 1) ? 7 : 11; // volume/expression only: their value is free to carry the tag
+                        last = (uint8_t)(16 * (k % 8) + 1 + (last % 15));
                     }
                     t.ev.push_back(e);
                 }
